@@ -1403,8 +1403,11 @@ reply_parse(struct evdns_base *base, u8 *packet, int length)
 			if (name_parse(packet, length, &j, cname,
 				sizeof(cname))<0)
 				goto err;
-			if (req->need_cname)
+			if (req->need_cname) {
+				if (reply.cname)
+					mm_free(reply.cname);
 				reply.cname = mm_strdup(cname);
+			}
 			if (req->put_cname_in_ptr && !*req->put_cname_in_ptr)
 				*req->put_cname_in_ptr = mm_strdup(cname);
 		} else if (type == TYPE_AAAA && class == CLASS_INET) {
